@@ -209,6 +209,12 @@ func (x *idx) write() ([]byte, error) {
 }
 
 // roundtrip replaces the index by write -> read and reports byte identity of a second write
+// checkpoint writes the index as it is now and discards the bytes
+func (x *idx) checkpoint() {
+	defer func() { recover() }()
+	x.write()
+}
+
 func (x *idx) roundtrip() tr.M {
 	m := tr.M{}
 	res := safely(func() {
@@ -355,8 +361,10 @@ func genRecords(r *rand.Rand, n, nref int, max int, tile int) []rec {
 			pos = 0
 		}
 		// begin: non-decreasing, biased to tile / level edges
-		switch r.Intn(6) {
+		switch r.Intn(7) {
 		case 0:
+		case 6: // jump over whole tiles: the tiles in between are touched by no record
+			pos += tile * (2 + r.Intn(6))
 		case 1:
 			pos += r.Intn(100)
 		case 2:
@@ -440,7 +448,28 @@ func runScenario(t *tr.Writer, r *rand.Rand, class, kind string, ms, d int, recs
 		}
 		return -2 // a name the index has never seen
 	}
-	for _, rc := range recs {
+	// a checkpoint part-way through the build: the half-built index is queried and written out
+	// (which sorts it), then the build goes on
+	mid := -1
+	if len(recs) > 3 && r.Intn(4) > 0 {
+		mid = 1 + r.Intn(len(recs)-1)
+	}
+	for ri, rc := range recs {
+		if ri == mid {
+			for k := 0; k < 3; k++ {
+				pr := recs[r.Intn(ri)]
+				if !pr.placed {
+					continue
+				}
+				b, e := pr.beg, pr.beg+1+r.Intn(1<<uint(x.ms))
+				if e > max {
+					e = max
+				}
+				cs, res := x.chunks(pr.ref, b, e)
+				t.Ev("chunks", tr.M{"ref": logRef(pr.ref, false), "beg": b, "end": e, "res": res, "chunks": chunks2(cs), "phase": "mid", "sig": "index/" + kind + "/chunks-mid"})
+			}
+			x.checkpoint()
+		}
 		res := x.add(rc)
 		end := rc.end
 		if kind == "bai" && !rc.mapped && rc.placed {
